@@ -189,7 +189,9 @@ BRACKET_ODD_HOSTS = ["[v1.a[b]", "[v1.x:y[]", "[fe80::1%eth[]", "[[::1]", "[v1.[
                      # a bracket pair that SPANS the '@': opened in the userinfo, closed at an edge of the host
                      "[user:pw@example.com]", "[u:p@]example.com", "[:@h]", "[a:b@c:d]",
                      # a bracketed IPv4 address / reg-name whose ZONE holds the ':' (D35)
-                     "[1.2.3.4%x:y]", "[1.2.3.4%:]", "[127.0.0.1%25eth0:1]", "[h%x:y]", "[::1%x:y]"]
+                     "[1.2.3.4%x:y]", "[1.2.3.4%:]", "[127.0.0.1%25eth0:1]", "[h%x:y]", "[::1%x:y]",
+                     # text between the closing bracket and the port (a forgotten ':', stray characters)
+                     "[::1]9090", "[::1]8443", "[v1.fe:80]4242", "[::1]x:81", "[2001:db8::1]80", "[::1]1:2", "[::1]:8:0", "[::1]abc"]
 
 
 def long_urls():
